@@ -9,23 +9,8 @@ HERE = os.path.dirname(os.path.dirname(os.path.abspath(__file__)))
 ALL = ["C%02d" % i for i in range(1, 21)]
 
 # property id -> (level category, technique, level text, level note, design ref)
-BUILT = {
- "C06": ("exploration",
-         "Hypothesis-generated (form, parameters, r) against independent closed forms over four access routes (reference-model differential)",
-         "Generated-input search over every built-in form's documented parameter domain; each value is compared with a closed form typed in from the documentation, evaluated with a cancellation-aware rounding scale, through potentialfunctions, potentialforms, potable sections and as.NAME() inside a formula; all routes must agree. A coverage matrix (form x route) with a floor per cell is enforced. Exploration: no absence proof, but argument-order, constant and exponent errors change values by O(1) at almost every generated point.",
-         "Reference formulas in vlib/forms.py (ZBL/Tang-Toennies constants as declared by the module, DESIGN 3.4); buck4 interior vs an independent solve, tolerance scaled by the system's condition number.",
-         "DESIGN.md 4 C06"),
- "C09": ("exploration",
-         "grammar-based Hypothesis generation of potable definitions and custom formulas, stratified by construct; reference interpreter + formatting metamorphic relation + Python-API differential",
-         "Generated-input search over the documented grammar (forms, ranges, nested modifiers, custom formulas with exprtk/pymath/as.* calls, if(), forms calling forms with different arguments), stratified so that every construct is reached by construction. Each definition is evaluated from potable text in all six sections, under two formatting/ordering variants (identical floats required) and through the Python API, against an independent reference interpreter. Exploration is the level that fits an unbounded grammar.",
-         "Reference interpreter vlib/model.py; exprtk literal parsing is modelled as accurate to 2 ulp; pow() with exactly two arguments; table-form leaves use scipy's cubic spline as reference.",
-         "DESIGN.md 4 C09"),
- "C08": ("exploration",
-         "Hypothesis-generated range sets x all listing permutations x boundary probes against a reference selection rule (differential + metamorphic)",
-         "Generated-input search: every listing permutation of 1..5 generated ranges is evaluated at, next to (nextafter), between and outside the starts through the API classes, the range_defns setter and potable text, and compared with an independent selection rule; permutation invariance is checked on exact floats. Exploration is the right level: the domain (markers x starts x orders x r) is small and boundary-driven, so generated boundary probes reach every branch of the search; no absence proof is claimed.",
-         "Trusts the reference rule in vlib/model.py::select_range (DESIGN 3.4); r > s at a start shared by '>' and '>=' accepts either range.",
-         "DESIGN.md 4 C08"),
-}
+BUILT = dict((k, (v["category"], v["technique"], v["text"], v["note"], v["design_ref"]))
+             for k, v in json.load(open(os.path.join(HERE, "tools", "manifest_entries.json"))).items())
 
 PENDING_REASON = "check not built yet in this round (planned, see DESIGN.md section 4); not claimed until it runs"
 
